@@ -674,7 +674,7 @@ class Engine:
                     diverge({"C04"}, f"lookup:generation-raised:{type(box.exc).__name__}:{op.api}", f"{where}: {box.exc!r}")
                 if box.value is None and not new_calls:
                     # the factory is visible on every other lookup path; this one reported "nothing there"
-                    diverge({"C02", "C19"}, f"lookup:factory-not-visible:{op.api}:returned-None", where)
+                    diverge({"C02", "C19", "C04"}, f"lookup:factory-not-visible:{op.api}:returned-None", where)
                 if len(new_calls) != 1 or new_calls[0][0] != mf.fid:
                     if not new_calls and isinstance(box.value, Val):
                         diverge({"C04", "C02"}, f"lookup:factory-not-called:{op.api}:returned={box.value.label.split('#')[0]}",
